@@ -25,10 +25,11 @@
 #include <stdint.h>
 
 #define MAXK 16
-#define MAXS 16
+#define MAXS 48
 typedef struct { int s, key, info, flags, id, tp, rc, len; long h; } ev_t;
 static ev_t *evs; static int nev, nstreams, nkeys, infolen[MAXK + 1], kstart[MAXK + 1], kend[MAXK + 1];
-static pthread_barrier_t barrier;
+static pthread_barrier_t barrier, barrier0;
+static int race_mode;   /* VERIF_PROF_RACE: all threads create their stream at the same instant */
 static FILE *out;
 
 static long hash(const unsigned char *p, int n)
@@ -46,6 +47,7 @@ static void *writer(void *arg)
 {
     int s = (int)(intptr_t)arg;
     unsigned char *info = malloc(1 << 16);
+    if( race_mode ) pthread_barrier_wait(&barrier0);
     parsec_profiling_stream_t *st = parsec_profiling_stream_init(4096, "S%d", s);
     pthread_barrier_wait(&barrier);      /* all streams exist */
     pthread_barrier_wait(&barrier);      /* parsec_profiling_start() was called */
@@ -93,6 +95,8 @@ int main(int argc, char **argv)
         parsec_profiling_add_dictionary_keyword(name, "fill:#FF0000", (size_t)infolen[k], "payload{int32_t}", &kstart[k], &kend[k]);
     }
     pthread_t th[MAXS + 1];
+    race_mode = (NULL != getenv("VERIF_PROF_RACE"));
+    pthread_barrier_init(&barrier0, NULL, nstreams);
     pthread_barrier_init(&barrier, NULL, nstreams + 1);
     for( s = 1; s <= nstreams; s++ ) pthread_create(&th[s], NULL, writer, (void*)(intptr_t)s);
     pthread_barrier_wait(&barrier);
